@@ -50,8 +50,13 @@ TABLE = {
     'C09': dict(level='other', bounded=[('c09_interface.py', 'signature/defaults/globals/closure identity and call bindings over all signature shapes')],
                 explanation='proved: _erase_arg_defaults replaces every default / non-None kw_default by the None literal, keeps the '
                             'number of slots and touches nothing else (so the placeholder signature has the same parameters and the real '
-                            'defaults are re-attached by instantiate); assumed with a bounded stand-in: instantiate / transform_function '
-                            '(signature, defaults, globals, closure identity and call bindings over all signature shapes)'),
+                            'defaults are re-attached by instantiate); _PythonFnFactory.instantiate matches closure cells to the factory\'s '
+                            'free variables BY NAME (cell i is the original cell of the variable of the same name, whatever order and subset '
+                            'the generated code references), passes the same globals dict and the same code object, and re-attaches defaults '
+                            'and keyword-only defaults unconditionally; transform_function hands the requesting function\'s own globals, '
+                            'closure and defaults to instantiate (event mode); assumed (T): types.FunctionType, immutability of tuples / '
+                            'function attributes across the factory call; assumed with a bounded stand-in: the generated factory source '
+                            '(_wrap_into_factory) and end-to-end signature, defaults, globals, closure identity and call bindings'),
     'C10': dict(level='other', bounded=[('c10_cache.py', 'random request histories x option sets x 1..32 threads against fresh conversions')],
                 explanation='proved: the cache data structure (_TransformedFnCache.has/__getitem__, CodeObjectCache/UnboundInstanceCache '
                             '_get_key), the options value type used as sub-key (C20), and (event mode) the double-checked-locking protocol of '
@@ -94,7 +99,9 @@ TABLE = {
     'C19': dict(level='other', bounded=[('c19_types.py', 'truthful resolver, run-time type log vs TYPES / CLOSURE_TYPES')],
                 explanation='proved: the shared worklist fixed point; closure types accumulate (_update_closure_types never forgets a '
                             'recorded type and afterwards covers every type of every variable of the current map, so what is recorded for '
-                            'a local function covers the captured variables at each call site); assumed (T): annotation keys store and '
+                            'a local function covers the captured variables at each call site); the state value type (_TypeMap copy owns its '
+                            'sets; | is the pointwise union into a new map and leaves its operands alone); the reaching-function-'
+                            'definitions analysis that selects the local functions (C07); assumed (T): annotation keys store and '
                             'return the annotation object; bounded stand-in for the per-statement inference and the joins themselves'),
     'C17': dict(level='other', bounded=[('c17_tree.py', 'tree-ness, ctx, compile, reparse identity, to_code text vs loaded module')],
                 explanation='proved (event mode): to_code returns the dedented source of the very function object that to_graph loads for '
